@@ -115,12 +115,25 @@ fn run(ctx: &mut Ctx) {
         Tier::Quick => vec!["1", "[1, \"s\"]"],
         Tier::Thorough => vec!["1", "\"s\"", "[1, \"s\"]", "{\"a\": 1}"],
     };
+    // thorough: every context also with a second context nested inside it (the binding then crosses two functional
+    // arguments / pipe stages before it is read)
+    let mut xs: Vec<String> = XS.iter().map(|s| s.to_string()).collect();
+    if ctx.tier == Tier::Thorough {
+        const INNER: [&str; 5] = ["(map (push [] . .) :HOLE)", "(| (push [] . \"w\") (map . :HOLE))", "(fold (push [] .) 0 :HOLE)", "(first (map (push [] .) :HOLE))", "(| . . :HOLE)"];
+        for x in XS.iter().skip(1) {
+            for inner in INNER {
+                xs.push(x.replace(":HOLE", inner));
+            }
+        }
+        ctx.guard("two-nested-contexts");
+    }
     let dummies = ["--select=.k=s1", "--select=.n=s2", "--select=(len .l)=s3"];
     for val in &vals {
         for form in forms(val) {
             let hs: &[&str] = if form.uses_mac { &H_MAC } else { &H_VAR };
             for (hi, h) in hs.iter().enumerate() {
-                for (xi, x) in XS.iter().enumerate() {
+                for (xi, x) in xs.iter().enumerate() {
+                    let x = x.as_str();
                     if !ctx.mine() {
                         continue;
                     }
